@@ -1076,6 +1076,178 @@ def diff_skip_after_write_fault(chk, tool, shim, base, rng, caches=(1, 3, 8, 128
     return stats
 
 
+# ------------------------------------------------------------------------------------------------
+# scan threads (scan.c): one thread per disk, sharing the stamp sets used for copy detection
+
+SCAN_KEY = 'F-C13-scan-copy-detection-depends-on-thread-timing'
+STAMP_S = 1500000000 * 10 ** 9 + 123456789
+
+
+class ScanArr:
+    """two data disks, one parity; built for the copy-detection scenarios"""
+
+    def __init__(self, base, name):
+        self.base = os.path.join(base, name)
+        self.work = os.path.join(self.base, 'work')
+        self.nd, self.np = 2, 1
+        os.makedirs(os.path.join(self.work, 'p'))
+        for k in range(2):
+            os.makedirs(os.path.join(self.work, 'd%d' % k))
+        with open(os.path.join(self.work, 'conf'), 'w') as f:
+            f.write('blocksize 1\nparity %s/p/par0\ncontent %s/p/content\ndata d0 %s/d0\ndata d1 %s/d1\n' % ((self.work,) * 4))
+
+    def conf(self):
+        return os.path.join(self.work, 'conf')
+
+    def put(self, rel, data, ns):
+        pth = os.path.join(self.work, rel)
+        os.makedirs(os.path.dirname(pth), exist_ok=True)
+        with open(pth, 'wb') as f:
+            f.write(data)
+        os.utime(pth, ns=(ns, ns))
+
+    def fix_dirs(self):
+        for root, dirs, files in os.walk(self.work):
+            if '/p' not in root[len(self.work):]:
+                os.utime(root, ns=(STAMP_S - 10 ** 12, STAMP_S - 10 ** 12))
+
+
+def _s(x):
+    return x.decode('utf-8', 'surrogateescape') if isinstance(x, (bytes, bytearray)) else x
+
+
+def decoded_state(arr):
+    """the array state recorded in the content file, decoded by the independent decoder (inodes dropped)"""
+    import content
+    pth = os.path.join(arr.work, 'p', 'content')
+    if not os.path.exists(pth):
+        return None
+    try:
+        st = content.parse(open(pth, 'rb').read())
+    except content.Bad as e:
+        return 'undecodable: %s' % e
+    out = {}
+    for d, v in sorted(st['disks'].items()):
+        out[_s(d)] = sorted((_s(f['sub']), f['size'], f['sec'], f['nsec'], repr(f['blocks'])) for f in v['files'])
+    return (out, repr(st['info']))
+
+
+def copy_shape(arr, saved_content):
+    """independent diagnosis: a NEW file whose size and time-stamp equal those of a file RECORDED on ANOTHER disk that
+    was itself changed (or removed) since the record was written"""
+    import content
+    st = content.parse(open(saved_content, 'rb').read())
+    hits = []
+    rec = {_s(d): {_s(f['sub']): f for f in v['files']} for d, v in st['disks'].items()}
+    for d in rec:
+        root = os.path.join(arr.work, d)
+        for dp, dn, fn in os.walk(root):
+            for name in fn:
+                full = os.path.join(dp, name)
+                sub = os.path.relpath(full, root)
+                if sub in rec[d]:
+                    continue
+                stn = os.stat(full)
+                for e in rec:
+                    if e == d:
+                        continue
+                    for r in rec[e].values():
+                        if r['size'] != stn.st_size or r['size'] == 0 or r['nsec'] < 0:
+                            continue
+                        if r['sec'] * 10 ** 9 + r['nsec'] != stn.st_mtime_ns:
+                            continue
+                        cur = os.path.join(arr.work, e, _s(r['sub']))
+                        changed = (not os.path.exists(cur)) or os.stat(cur).st_size != r['size'] or os.stat(cur).st_mtime_ns != stn.st_mtime_ns
+                        if changed:
+                            hits.append({'new': '%s:%s' % (d, sub), 'stale_record': '%s:%s' % (e, _s(r['sub']))})
+    return hits
+
+
+def diff_scan_threads(chk, tool, shim, base, rng, tier):
+    """scan.c runs one thread per disk; copy detection looks a new file up in the stamp sets of the OTHER disks while their
+    threads are dropping entries.  Each scenario is scanned sequentially (--test-skip-multi-scan) and N times threaded:
+    diff counters, sync exit status and the decoded content after sync must be equal."""
+    stats = {'scenarios': 0, 'runs': 0, 'known_finding_witnessed': 0}
+    env0 = {'LD_PRELOAD': shim} if shim else {}
+    reps = 3 if tier == 'quick' else 12
+    r2 = random.Random(rng.randrange(1, 10 ** 6))
+
+    def rb(k):
+        return bytes(r2.getrandbits(8) for _ in range(k))
+    # (name, disk of the stale record, disk of the new file, disk of the fillers, number of fillers, same name, control)
+    plan = [('stale_d1_fill2000_d0', 1, 0, 0, 2000, True, False),
+            ('stale_d0_fill2000_d0', 0, 1, 0, 2000, True, False),
+            ('stale_d1_nofill_othername', 1, 0, 0, 0, False, False),
+            ('control_real_copy_fill300_d0', 1, 0, 0, 300, True, True)]
+    if tier != 'quick':
+        plan += [('stale_d1_fill300_d0', 1, 0, 0, 300, True, False), ('stale_d1_fill300_d1', 1, 0, 1, 300, True, False),
+                 ('stale_d0_fill300_d1', 0, 1, 1, 300, False, False), ('stale_d0_nofill', 0, 1, 0, 0, True, False)]
+    for name, sd, nd_, fd, nfill, same, control in plan:
+        arr = ScanArr(base, 'scan_' + name)
+        stats['scenarios'] += 1
+        old = rb(2048)
+        arr.put('d%d/yy.q' % sd, old, STAMP_S)
+        arr.put('d%d/keep.q' % (1 - sd), rb(3000), STAMP_S + 5 * 10 ** 9 + 7)
+        for i in range(nfill):
+            arr.put('d%d/a%04d' % (fd, i), b'', STAMP_S - 10 ** 11 + i)
+        arr.fix_dirs()
+        rc, out, tags = run_tool(tool, arr, 1, ['sync'], env0, opts=['--test-skip-multi-scan'])
+        if rc != 0:
+            chk.notes.append('scan scenario %s could not be prepared (sync rc %s)' % (name, rc))
+            continue
+        pdir = os.path.join(arr.work, 'p')
+        save = os.path.join(arr.base, 'save')
+        shutil.copytree(pdir, save, copy_function=shutil.copy2)
+        newname = 'zz/yy.q' if same else 'zz/other.q'
+        if control:
+            arr.put('d%d/%s' % (nd_, newname), old, STAMP_S)                 # a real copy of an unchanged file
+        else:
+            arr.put('d%d/yy.q' % sd, rb(2048), STAMP_S + 77 * 10 ** 9 + 1)       # the recorded file changes ...
+            arr.put('d%d/%s' % (nd_, newname), rb(2048), STAMP_S)              # ... and an unrelated file has its old size and time-stamp
+        arr.fix_dirs()
+        shape = copy_shape(arr, os.path.join(save, 'content'))
+        descr = {'scenario': name, 'stale_record_on': 'd%d' % sd, 'new_file': 'd%d/%s' % (nd_, newname), 'fillers': '%d empty files on d%d' % (nfill, fd),
+                 'control': control, 'independent_diagnosis': shape,
+                 'recipe': 'sync; rewrite d%d/yy.q (new time-stamp); create d%d/%s with other bytes, same size and the OLD time-stamp of yy.q; diff / sync threaded vs --test-skip-multi-scan' % (sd, nd_, newname)}
+        results = []
+        for mode in ['sequential'] + ['threaded'] * reps:
+            opts = ['--test-skip-multi-scan'] if mode == 'sequential' else []
+            shutil.rmtree(pdir)
+            shutil.copytree(save, pdir, copy_function=shutil.copy2)
+            drc, dout, dtags = run_tool(tool, arr, 3, ['diff'], env0, timeout=60, opts=opts)
+            counters = sorted(t for t in dtags if t.startswith('summary:'))
+            src, sout, stags = run_tool(tool, arr, 3, ['sync'], env0, timeout=60, opts=opts)
+            stats['runs'] += 2
+            if drc == 'timeout' or src == 'timeout':
+                chk.violation('hang_scan_%s' % name, 'diff/sync does not terminate in scenario %s (%s scan)' % (name, mode), descr)
+                return stats
+            results.append((mode, (drc, counters, src, decoded_state(arr))))
+        ref = results[0][1]
+        differing = [(m, r) for m, r in results[1:] if r != ref]
+        among = len(set(repr(r) for m, r in results[1:])) > 1
+        if differing or among:
+            m, r = differing[0] if differing else results[1]
+            what = []
+            if r[1] != ref[1]:
+                what.append('diff counters %s vs %s' % ([t.split(':', 1)[1] for t in r[1] if t not in ref[1]], [t.split(':', 1)[1] for t in ref[1] if t not in r[1]]))
+            if r[0] != ref[0]:
+                what.append('diff exit status %s vs %s' % (r[0], ref[0]))
+            if r[2] != ref[2]:
+                what.append('sync exit status %s vs %s' % (r[2], ref[2]))
+            if r[3] != ref[3]:
+                what.append('content after sync differs')
+            msg = ('scan threads: the result depends on the interleaving of the per-disk scan threads in scenario %s: threaded vs sequential (--test-skip-multi-scan): %s%s'
+                   % (name, '; '.join(what) or 'threaded runs differ among themselves', '; threaded runs also differ among themselves' if among and differing else ''))
+            rep = dict(descr, results=[(m, r[0], r[1], r[2]) for m, r in results])
+            if shape and not control:
+                stats['known_finding_witnessed'] += 1
+                stats.setdefault('witnessed_in', []).append(name + ': ' + '; '.join(what)[:160])
+                chk.violation('scan_' + name, msg + ' -- a new file matches the stale stamp of a changed file of another disk: %s' % shape[0], rep, finding_key=SCAN_KEY)
+            else:
+                chk.violation('scan_' + name, msg, rep)
+    return stats
+
+
 def build_tsan(snap):
     cflags = ['-O1', '-g', '-D' + GUARD, '-fsanitize=thread', '-fno-omit-frame-pointer']
     objs = _compile_many_tsan(snap, cflags)
@@ -1231,6 +1403,7 @@ def main(tier, replay=None):
         dstats['autosave'] = diff_autosave(chk, tool, shim, arrays[1 if len(arrays) > 1 else 0])
         dstats['families'] = diff_families(chk, tool, shim, base, rng, tier)
         dstats['skip_after_write_fault'] = diff_skip_after_write_fault(chk, tool, shim, base, rng, model=model, hooked=hooked)
+        dstats['scan_threads'] = diff_scan_threads(chk, tool, shim, base, rng, tier)
         if tier == 'thorough':
             for _ in range(4):
                 sub = os.path.join(base, 'more%d' % _)
@@ -1276,6 +1449,7 @@ def main(tier, replay=None):
         'ASSUMED, only tested (no Coq model of scrub.c state_scrub_process here; the ring model stops at handing tasks to the caller): the classification of the block of disk j in a stripe (file error vs silent data error, bad mark) depends only on disk j own file/block state, not on the other disks of the stripe nor on their arrival order -- tested by the cross-disk scrub scenario (touched file and silent error on different disks of one stripe, both disk orders), compared across depths 1/3/8/128, yield seeds, one slowed disk at a time, and against the expected classification and bad marks',
         'exercised by oracle only (cache-depth differential incl. default depth, no Coq model): continuation after open/read faults of a data disk (ENOENT, EIO) in sync, scrub and test-dry, parity read EIO in scrub/test-dry, parity WRITE EIO in sync at a middle stripe, before an autosave and at the last stripe (io_writer_bad / io_write_bad bad marks), scrub plans new/auto/even/force-at/bad/percent, scrub and sync and sync -h with a pending rehash, silent errors recovered by sync under a pending rehash, silent parity corruption in synced and in time-stamp-unsynced stripes, sync over bad marks, sync -h (pre-hash), sync -F, deallocation of deleted blocks, io statistics (io_refresh) under a ticking clock',
         'writer error bookkeeping (latest_state, writer_error[], writer_bad_map) is modelled in coq/Ring/RingErr.v on top of the ring model and proved for all schedules and outcome assignments (exactly once, nothing for EMPTY/successful tasks, nothing lost at stop, at most io_max-1 pending positions per writer); TIE: the hook does not log the counters, so the model is tied by (1) the write-fault differential (error_io and bad marks equal the injected failures at every depth) and (2) replaying the recorded traces of the skip_after_write_fault runs through the extracted estep with the injected outcome and comparing the predicted collected counters/positions with the error_io / bad marks the tool reports; approximation: the drain of the positions is merged with the io_write_next atomic section',
+        'the ring model does not cover the per-disk SCAN threads of scan.c (they share only the stamp sets under the stamp mutex): tested by the scan_threads family (sequential --test-skip-multi-scan vs repeated threaded diff and sync: counters, exit status, decoded content); on the pinned tree this witnesses the open finding %s (copy detection against a stale stamp of another disk depends on thread timing), reported as KNOWN-FINDING' % SCAN_KEY,
         'not reached on purpose: fatal / LCOV_EXCL branches (TASK_STATE_IOERROR/ERROR bail-outs, io error limit, close errors), O_DIRECT buffers (io.c:1159), the IO_MIN clamp of the default depth (io.c:1138, needs blocks above 5 MiB), the conf-file autosave of scrub (granularity is GB), EACCES, attribute/data change racing with the command',
         'io_refresh_thread (progress display only) and the mono-thread variants (io_max = 1, trivially sequential) are not in the model; io_max = 1 is covered by the differential runs']
     return chk.finish()
